@@ -123,3 +123,29 @@ Definition u32 (x : N) : Prop := x < 4294967296.
 Definition typed (e : event) (ps : list parent) : Prop :=
   u32 (e_seq e) /\ u32 (e_lamport e) /\ Forall (fun p => u32 (p_seq p) /\ u32 (p_lamport p)) ps.
 Definition parents_of (e : event) (ps : list parent) : Prop := map p_id ps = e_parents e.
+
+(* ---- without the caller's contract.  What the checkers themselves verify of it: the lengths agree
+   (otherwise parentscheck panics) and, when a self-parent is expected, the first event passed is the
+   one named first in the id list. *)
+Definition c_firstid (e : event) (ps : list parent) : Prop :=
+  1 < e_seq e -> exists h0 r p0 r', e_parents e = h0 :: r /\ ps = p0 :: r' /\ p_id p0 = h0.
+Definition c_firstid_b (e : event) (ps : list parent) : bool :=
+  if 1 <? e_seq e
+  then match e_parents e, ps with h0 :: _, p0 :: _ => p_id p0 =? h0 | _, _ => false end
+  else true.
+Definition len_eq_b (e : event) (ps : list parent) : bool := Nat.eqb (length (e_parents e)) (length ps).
+
+(* the verdict on an answer for ANY call (no [parents_of]) *)
+Definition answer_ok_gen (cur : N) (vals : list N) (e : event) (ps : list parent) (r : result) : bool :=
+  let pre := c_range_b e && c_present_b e && c_distinct_b e && c_epoch_b cur e && c_creator_b vals e in
+  match r with
+  | Ok => len_eq_b e ps && wf_event_b cur vals e ps && c_firstid_b e ps
+  | Err PanicLen => pre && negb (len_eq_b e ps)
+  | Err WrongLamport => pre && len_eq_b e ps && negb (c_lamport_b e ps)
+  | Err WrongSelfParent =>
+    pre && len_eq_b e ps && c_lamport_b e ps && negb (c_selfparent_b e ps && c_firstid_b e ps)
+  | Err WrongSeq =>
+    pre && len_eq_b e ps && c_lamport_b e ps && c_selfparent_b e ps && c_firstid_b e ps
+    && negb (c_seq_b e ps)
+  | Err k => blames_b cur vals e ps k      (* basiccheck / epochcheck errors do not look at ps *)
+  end.
